@@ -164,10 +164,10 @@ def stepAccept (s : DSt) (line : String) : DSt × String :=
       let ms := parseMembers ws
       match obs.splitOn " svc=" with
       | [fixed, svcObs] =>
-        if fixed != showFixed ms then (s, "REJECT model=" ++ showFixed ms)
+        if fixed != showFixed ms then ({ s with dir := mkDir ms }, "REJECT model=" ++ showFixed ms)
         else match pinServices ms svcObs with
           | .ok sv => ({ s with dir := ⟨ms, sv⟩ }, "ok")
-          | .error e => (s, "REJECT " ++ e)
+          | .error e => ({ s with dir := mkDir ms }, "REJECT " ++ e)
       | _ => ({ s with dir := mkDir ms }, "REJECT unparsable view observation; model=" ++ (stepModel s op).2)
     else
       let (s', m) := stepCall s ws
